@@ -2,6 +2,8 @@
 # tools/tryseed.sh <patch.diff> <Cxx> [Cyy ...] : apply a seeded change to /repo, run the quick
 # checks, print what each reports, and undo the change again. Never commits anything to /repo.
 patch="$1"; shift
+# runs against a changed tree must not overwrite the evidence of the unchanged one
+export VERIF_EVIDENCE_DIR=/tmp/verif_seed_evidence; mkdir -p $VERIF_EVIDENCE_DIR
 cd /repo || exit 2
 if ! git diff HEAD --quiet; then echo "tryseed: /repo has uncommitted changes, refusing"; exit 2; fi
 git apply "$patch" || { echo "tryseed: patch does not apply"; exit 2; }
